@@ -581,6 +581,23 @@ pub fn run(ctx: &Ctx, rep: &mut Report) {
             h.feed(rep, "long-opener", nmea_ref::mk(n, 2, Some(3), b"0", 0), true);
         }
     }
+    // ... and the same product for a *middle* fragment: a small opener, then fragment k >= 2 of a
+    // many-fragment group carrying 8.5 to 17 million characters (34 million thorough), then the next
+    // small one - (fragments still to come) x (length) passes 2^31 and 2^32 here as well
+    if !mon::is_noalloc() && ctx.shard == 2 % ctx.nshards {
+        for (len, n, k) in [(8_500_000usize, 255u8, 2u8), (16_980_000, 255, 2), (17_100_000, 255, 3), (34_000_000, 128, 2), (17_000_000, 255, 127)] {
+            if len > 20_000_000 && !ctx.thorough() {
+                continue;
+            }
+            let mut h = Hist::new();
+            for j in 1..k {
+                h.feed(rep, "long-middle", nmea_ref::mk(n, j, Some(3), b"15M", 0), false);
+            }
+            let pl: Vec<u8> = std::iter::repeat(b'w').take(len).collect();
+            h.feed(rep, "long-middle", nmea_ref::mk(n, k, Some(3), &pl, 0), false);
+            h.feed(rep, "long-middle", nmea_ref::mk(n, k + 1, Some(3), b"0", 0), true);
+        }
+    }
     gen_repetition(ctx, rep, &mut r);
     gen_utf8_text(ctx, rep, &mut r);
     gen_huge(ctx, rep, &mut r);
